@@ -1577,8 +1577,24 @@ func main() {
 	outJSON := flag.String("json", "", "output JSON description")
 	outGo := flag.String("go", "", "output Go registry for the harness")
 	outFoot := flag.String("footprint", "", "output Coq file with the global-variable footprint of every function")
+	outHelpers := flag.String("helpers", "", "output Coq file with the memory facts (flow graph, make sites) of codec/*.go")
 	outLocks := flag.String("locks", "", "output Coq file with the lock skeletons of the checksum-service registry")
 	flag.Parse()
+	if *outHelpers != "" {
+		func() {
+			defer func() {
+				if r := recover(); r != nil {
+					os.Remove(*outHelpers)
+					if te, ok := r.(terr); ok {
+						fmt.Fprintf(os.Stderr, "HELPERS-ERROR %s\n", te.msg)
+						return
+					}
+					panic(r)
+				}
+			}()
+			writeHelpers(*root, *outHelpers)
+		}()
+	}
 	if *outLocks != "" {
 		// independent of the rest: a registry outside the grammar breaks only the C19 obligation
 		func() {
